@@ -5,7 +5,8 @@ import json, os, shutil, subprocess, sys, time
 ROOT = os.path.dirname(os.path.dirname(os.path.abspath(__file__)))
 src_repo = sys.argv[1]
 out = sys.argv[2]
-ids = sys.argv[3:] or sorted(os.listdir(os.path.join(ROOT, "seeded")), key=lambda x: (x.startswith("own_"), x))
+BASE = os.environ.get("MATRIX_DIR", "seeded")   # "benign" for the behaviour-preserving patches (every check must stay silent)
+ids = sys.argv[3:] or sorted(os.listdir(os.path.join(ROOT, BASE)), key=lambda x: (x.startswith("own_"), x))
 PROPS = [f"C{i:02d}" for i in range(1, 21)]
 scratch = os.environ.get("MATRIX_SCRATCH", "/tmp/mx")
 os.makedirs(scratch, exist_ok=True)
@@ -13,7 +14,7 @@ res = {}
 if os.path.exists(out):
     res = json.load(open(out))
 for sid in ids:
-    patch = os.path.join(ROOT, "seeded", sid, "patch.diff")
+    patch = os.path.join(ROOT, BASE, sid, "patch.diff")
     if not os.path.exists(patch) or sid in res:
         continue
     repo = os.path.join(scratch, "repo")
